@@ -9,7 +9,9 @@ Ties (every run):
   `typename`, `header`, `type_signature`, prefix/postfix specifiers, `convert` …) against the Lean model, string
   by string, over type expressions (exhaustive to nesting 3 in the thorough tier) under random configurations;
 * file level: a skeleton of every generated C++/Java/ObjC/C++-CLI declaration (extracted by `ctok.py`) against
-  the model's `apiSkel`.
+  the model's `apiSkel`; the skeleton of a Java record carries the modifier words of every field, that of an error code its
+  fields with their modifier words, the constructor parameters and the accessors (name, type, modifiers) of the fields —
+  error codes have 0-4 parameters of primitive, optional, collection, enum, flags and record types.
 Specification on the implementation's observations: `printT (ref… t)` (the independently written reference
 mapping) against every real type string, `fidelity` (op `c02.spec`) on every extracted skeleton, and the style
 specification `convertSpec` (op `c02.convertSpec`: prefix, capital letters exactly at the starts of the `_`-separated
@@ -255,8 +257,10 @@ def canon_skel(sk: dict, target: str) -> dict:
     return {"kind": sk["kind"], "name": sk["name"], "scope": sk["scope"], "mods": list(sk["mods"]),
             "fields": mem(sk["fields"], dc), "ctor": mem(sk["ctor"]),
             "methods": [{"pre": list(m["pre"]), "ret": ty(m["ret"]), "name": m["name"], "params": mem(m["params"]), "post": list(m["post"])} for m in sk["methods"]],
-            "items": list(sk["items"]),
-            "codes": [{"name": k["name"], "fields": mem(k["fields"], dc), "ctor": mem(k["ctor"])} for k in sk["codes"]]}
+            "items": list(sk["items"]), "fmods": list(sk.get("fmods", [])),
+            "codes": [{"name": k["name"], "fields": mem(k["fields"], dc), "ctor": mem(k["ctor"]), "fmods": list(k.get("fmods", [])),
+                       "methods": [{"pre": list(m["pre"]), "ret": ty(m["ret"]), "name": m["name"], "params": mem(m["params"]), "post": list(m["post"])}
+                                   for m in k.get("methods", [])]} for k in sk["codes"]]}
 
 
 def first_diff(a, b, path=""):
@@ -288,7 +292,7 @@ def member_shape(j: dict) -> str:
                      ('r' if m['ret'] else '') + str(len(m['params'])) for m in j['methods']})
         return f"interface/{','.join(j['targets'])}/{' '.join(ms)}"
     if k == "Function":
-        return f"function/{'anon' if j['anonymous'] else 'named'}/{len(j['params'])}/{'r' if j['ret'] else ''}"
+        return f"function/{'anon' if j['anonymous'] else 'named'}/{len(j['params'])}/{'r' if j['ret'] else ''}" + ("" if j['anonymous'] else "/" + ",".join(j['targets']))
     if k == "ErrorDomain":
         return "error/" + ",".join(str(len(c['params'])) for c in j['codes'])
     return k.lower() + "/" + str(len(j.get("items", [])))
@@ -306,7 +310,8 @@ def _file_worker(args):
         # identifiers: two programs of three draw declaration and member names also from the lists of character-class shapes
         # (digit→letter, letter→digit, `__`, trailing `_`, single letters, all-capitals words), one keeps the plain lists
         wide = pi % 3 != 2
-        decls = gen_api.ProgGen(r, base_records=True,
+        # every second program: error codes with up to 4 parameters of optional, collection, enum, flags and record types
+        decls = gen_api.ProgGen(r, base_records=True, rich_codes=pi % 2 == 0,
                                 names=gen_api.SAFE_NAMES + gen_api.TYPE_SHAPES if wide else None,
                                 member_names=gen_api.MEMBER_NAMES + gen_api.MEMBER_SHAPES if wide else None).program()
         text = gen_api.render(decls)
